@@ -555,3 +555,162 @@ Example C01_reach_clauses_nonvacuous :
   map (fun cl => hist_ok cl ex_schema (new ex_schema 11) [OBase (OSet [] 0 (PInt 1)); OBase (OParse [x98; x06; x01])]) clauses
     = [true; true; true; false; true; true].
 Proof. vm_compute. repeat split; reflexivity. Qed.
+
+From BP Require Import Model.Len Model.C17Typed Model.C17Nested Model.C14Pickle Model.C08Step Model.C03Bridge Spec.Descriptor.
+From BP Require Import Model.C01GapDef Proofs.C01GapA Proofs.C01GapB Proofs.C03BridgeWit.
+
+(* ---- layer 9: the property text compared clause by clause with layers 1-8 (table: header of Proofs/C01GapA.v) ---- *)
+
+(* "decoding ... yields a message [of the domain]": the decoded message satisfies the value hypothesis again, and its flags
+   satisfy sow_ok with NO hypothesis on the flags of m - after the first round trip the observer clause is unconditional *)
+Theorem C01_decoded_in_domain : forall sc m,
+  c01_schema_ok sc = true -> c01_value_ok sc m = true ->
+  c01_value_ok sc (norm_obj sc m) = true /\ sow_ok sc (norm_obj sc m) = true.
+Proof. exact decoded_in_domain. Qed.
+Print Assumptions C01_decoded_in_domain.
+
+(* "Encoding that decoded message again ...": decode-after-encode is idempotent (under the size condition of C01_roundtrip:
+   the equation is obtained from parse being a function; without it: not proved) *)
+Theorem C01_norm_idempotent : forall sc m bs,
+  c01_schema_ok sc = true -> c01_value_ok sc m = true -> enc_obj sc m = Ok bs -> Zlength bs < 2 ^ 64 ->
+  norm_obj sc (norm_obj sc m) = norm_obj sc m.
+Proof. exact norm_idem. Qed.
+Print Assumptions C01_norm_idempotent.
+
+(* the second cycle: m' is a fixpoint; value and flag conditions, observers and (NaN-free) == hold of it outright *)
+Theorem C01_second_cycle : forall sc m bs,
+  c01_schema_ok sc = true -> c01_value_ok sc m = true -> enc_obj sc m = Ok bs -> Zlength bs < 2 ^ 64 ->
+  let m' := norm_obj sc m in
+  parse sc (ocls m) bs = Ok m' /\ enc_obj sc m' = Ok bs /\ parse sc (ocls m') bs = Ok m' /\
+  c01_value_ok sc m' = true /\ sow_ok sc m' = true /\ obs_top sc m' m' = true /\
+  (deep nan_free (PMsg m') = true -> obj_eq sc m' m' = true).
+Proof. exact second_cycle. Qed.
+Print Assumptions C01_second_cycle.
+
+(* ... and every later cycle: n+1 passes through bytes / parse end in the same object, which encodes to the same bytes *)
+Theorem C01_cycles_fixpoint : forall sc m bs n,
+  c01_schema_ok sc = true -> c01_value_ok sc m = true -> enc_obj sc m = Ok bs -> Zlength bs < 2 ^ 64 ->
+  cycles sc (S n) m = Ok (norm_obj sc m) /\ enc_obj sc (norm_obj sc m) = Ok bs.
+Proof. exact cycles_fixpoint. Qed.
+Print Assumptions C01_cycles_fixpoint.
+
+(* "THE decoded message": it is determined by the bytes; two values with the same bytes are == to each other's decoded form *)
+Theorem C01_decoded_unique : forall sc m1 m2 bs,
+  c01_schema_ok sc = true -> c01_value_ok sc m1 = true -> c01_value_ok sc m2 = true -> ocls m1 = ocls m2 ->
+  enc_obj sc m1 = Ok bs -> enc_obj sc m2 = Ok bs -> Zlength bs < 2 ^ 64 ->
+  norm_obj sc m1 = norm_obj sc m2 /\ (forall g, which_one_of m1 g = which_one_of m2 g) /\
+  (deep nan_free (PMsg m1) = true -> deep nan_free (PMsg m2) = true ->
+   obj_eq sc m1 (norm_obj sc m2) = true /\ obj_eq sc (norm_obj sc m1) m2 = true).
+Proof. exact decoded_unique. Qed.
+Print Assumptions C01_decoded_unique.
+
+(* the encoder is injective exactly up to norm_obj: same class and same bytes IFF same decoded message *)
+Theorem C01_enc_eq_iff_norm_eq : forall sc m1 m2 bs,
+  c01_schema_ok sc = true -> c01_value_ok sc m1 = true -> c01_value_ok sc m2 = true ->
+  enc_obj sc m1 = Ok bs -> Zlength bs < 2 ^ 64 ->
+  (enc_obj sc m2 = Ok bs /\ ocls m2 = ocls m1 <-> norm_obj sc m2 = norm_obj sc m1).
+Proof. exact enc_eq_iff_norm_eq. Qed.
+Print Assumptions C01_enc_eq_iff_norm_eq.
+
+(* "equal to m": Message.__eq__ in both directions (it is not symmetric by construction) *)
+Theorem C01_equal_both_ways : forall sc m,
+  c01_schema_ok sc = true -> c01_value_ok sc m = true -> deep nan_free (PMsg m) = true ->
+  obj_eq sc m (norm_obj sc m) = true /\ obj_eq sc (norm_obj sc m) m = true.
+Proof. exact equal_both_ways. Qed.
+Print Assumptions C01_equal_both_ways.
+
+(* composition with C17_accept_iff: bytes(m) meets the exact acceptance criterion of the class of m *)
+Theorem C01_bytes_valid : forall sc m bs,
+  c01_schema_ok sc = true -> c01_value_ok sc m = true -> enc_obj sc m = Ok bs -> Zlength bs < 2 ^ 64 ->
+  valid sc (ocls m) bs.
+Proof. exact bytes_valid. Qed.
+Print Assumptions C01_bytes_valid.
+
+(* composition with C09: len(m) = len(m') = the number of bytes *)
+Theorem C01_len_roundtrip : forall sc m bs,
+  c01_schema_ok sc = true -> c01_value_ok sc m = true -> enc_obj sc m = Ok bs ->
+  len_obj sc m = Ok (Zlength bs) /\ len_obj sc (norm_obj sc m) = Ok (Zlength bs).
+Proof. exact len_roundtrip. Qed.
+Print Assumptions C01_len_roundtrip.
+
+(* composition with C08: a message that holds unknown records at the top level (outside c01_value_ok) - [unk_records_ok]: its
+   _unknown_fields is a concatenation of complete records the class keeps verbatim (what parse leaves there); the records come
+   back verbatim, the rest as in C01_roundtrip, == in both directions.  Unknown bytes inside NESTED messages: not covered *)
+Theorem C01_roundtrip_unknown : forall sc m,
+  c01_schema_ok sc = true -> c01_value_ok sc (clear_unk m) = true -> unk_records_ok sc m = true -> enc_small sc m = true ->
+  exists body m', enc_obj sc (clear_unk m) = Ok body /\ enc_obj sc m = Ok (body ++ ounk m) /\
+    parse sc (ocls m) (body ++ ounk m) = Ok m' /\ m' = set_unk (norm_obj sc (clear_unk m)) (ounk m) /\
+    ounk m' = ounk m /\ enc_obj sc m' = Ok (body ++ ounk m) /\
+    (forall g, which_one_of m' g = which_one_of m g) /\
+    (deep nan_free (PMsg m) = true -> obj_eq sc m m' = true /\ obj_eq sc m' m = true) /\
+    (sow_ok sc m = true -> obs_top sc m m' = true).
+Proof. exact roundtrip_unknown. Qed.
+Print Assumptions C01_roundtrip_unknown.
+
+(* "message types ... generated by the plugin": for every class table with C03's table_ok (what the plugin's output denotes:
+   C03_table_schema_ok and the C03 descriptor theorems) the schema hypothesis is discharged *)
+Theorem C01_table_roundtrip : forall (t : class_table) m,
+  table_ok t = true ->
+  let sc := schema_of_table t in
+  c01_value_ok sc m = true ->
+  exists bs, enc_obj sc m = Ok bs /\
+    (Zlength bs < 2 ^ 64 ->
+     exists m', parse sc (ocls m) bs = Ok m' /\ m' = norm_obj sc m /\
+       (deep nan_free (PMsg m) = true -> obj_eq sc m m' = true) /\
+       (forall g, which_one_of m' g = which_one_of m g) /\
+       (sow_ok sc m = true -> obs_top sc m m' = true) /\
+       enc_obj sc m' = Ok bs).
+Proof. exact table_roundtrip. Qed.
+Print Assumptions C01_table_roundtrip.
+
+(* ---- non-vacuity of layer 9: ex_obj (norm_obj changes it: the flag of the top-level object and the empty map value), a second
+        value with the same bytes but another raw state (an unset plain field written as its default), unknown records (field
+        99 varint, field 100 length-delimited) attached to ex_obj, the plugin-derived table T_ok with its value ok_outer ---- *)
+Definition ex_obj2 : obj :=
+  match ex_obj with Obj c raw sow unk cur => Obj c (set_nth 3 PPlaceholder (set_nth 6 (PList [PInt 4294967295; PInt 0]) raw)) false unk cur end.
+Definition ex_obj_unk : obj := set_unk ex_obj [x98; x06; x01; xa2; x06; x02; x68; x69].
+Example C01_gap_nonvacuous :
+  match enc_obj ex_schema ex_obj with
+  | Ok bs =>
+      (Zlength bs <? 2 ^ 64) = true /\
+      len_obj ex_schema ex_obj = Ok (Zlength bs) /\
+      cycles ex_schema 3 ex_obj = Ok (norm_obj ex_schema ex_obj) /\
+      norm_obj ex_schema (norm_obj ex_schema ex_obj) = norm_obj ex_schema ex_obj /\
+      enc_obj ex_schema ex_obj2 = Ok bs
+  | Err _ => False
+  end /\
+  c01_value_ok ex_schema ex_obj2 = true /\ ocls ex_obj2 = ocls ex_obj /\
+  c01_value_ok ex_schema (norm_obj ex_schema ex_obj) = true /\ sow_ok ex_schema (norm_obj ex_schema ex_obj) = true /\
+  c01_value_ok ex_schema ex_obj_unk = false /\ c01_value_ok ex_schema (clear_unk ex_obj_unk) = true /\
+  unk_records_ok ex_schema ex_obj_unk = true /\ enc_small ex_schema ex_obj_unk = true /\
+  table_ok T_ok = true /\ c01_value_ok (schema_of_table T_ok) ok_outer = true.
+Proof. vm_compute. repeat split; reflexivity || lia || (repeat constructor). Qed.
+
+(* "all scalar kinds, enums incl. negative and unlisted numbers, nested/recursive messages, repeated, packed, maps, oneofs,
+   proto3-optional, wrapper and Timestamp/Duration fields": the side conditions ADMIT every one of them.  gk_schema
+   (Model/C01GapDef.v): each of the 16 scalar kinds as a plain, a repeated, a proto3-optional field and a oneof member, the nine
+   wrappers, Timestamp, Duration, repeated Timestamp, a recursive message (plain, optional, repeated, oneof member, map value),
+   a map for each of the 12 legal key kinds.  gk_obj: 32/64-bit boundaries, enum -2^31 (negative, unlisted), -0.0, -inf, +inf,
+   a singular NaN, non-BMP string, negative Duration, optionals holding the default value, the selected oneof member holding
+   its default "", an empty-but-present sub-message; gk_empty: empty containers, nothing set.  The property evaluated on both. *)
+Example C01_all_kinds_schema :
+  c01_schema_ok gk_schema = true /\ length gk_fields = 92%nat /\ length (classes gk_schema) = 24%nat /\
+  forallb (fun t => existsb (fun f => ptype_eqb (fty f) t && match fhint f with HPlain _ => negb (is_some (fgroup f)) | _ => false end) gk_fields &&
+                    existsb (fun f => ptype_eqb (fty f) t && match fhint f with HList _ => true | _ => false end) gk_fields &&
+                    existsb (fun f => ptype_eqb (fty f) t && fopt f) gk_fields &&
+                    existsb (fun f => ptype_eqb (fty f) t && is_some (fgroup f)) gk_fields) scalar_ptypes = true /\
+  forallb (fun w => existsb (fun f => opt_eqb ptype_eqb (fwraps f) (Some w)) gk_fields) wrapper_types = true /\
+  forallb (fun k => negb (map_key_ok k) ||
+                    existsb (fun f => match fmap f with Some (kt, _) => ptype_eqb kt k | None => false end) gk_fields) scalar_ptypes = true.
+Proof. exact all_kinds_schema. Qed.
+
+Example C01_all_kinds_value :
+  c01_value_ok gk_schema gk_obj = true /\ sow_ok gk_schema gk_obj = true /\ deep nan_free (PMsg gk_obj) = true /\
+  c01_holds gk_schema gk_obj = true /\
+  which_one_of (norm_obj gk_schema gk_obj) 0 = Some gk_selected /\
+  match enc_obj gk_schema gk_obj with
+  | Ok bs => parse gk_schema 11 bs = Ok (norm_obj gk_schema gk_obj) /\ (400 < length bs)%nat
+  | Err _ => False
+  end /\
+  c01_value_ok gk_schema gk_empty = true /\ c01_holds gk_schema gk_empty = true /\ enc_obj gk_schema gk_empty = Ok [].
+Proof. exact all_kinds_value. Qed.
